@@ -5,6 +5,7 @@ import Driver.OpsHeader
 import Driver.Oracle
 import Driver.OpsJws
 import Driver.OpsClaims
+import Driver.OpsKeys
 /-!
 Line-protocol driver: one request per line on stdin, one answer per line on stdout.
 `<op> <args…>`; bytes are hex (`-` = empty).  Unknown or malformed requests answer `bad-op`.
@@ -24,6 +25,9 @@ def handle (allToks : List String) : String :=
   | some r => r
   | none =>
   match handleClaims toks with
+  | some r => r
+  | none =>
+  match handleKeys toks tbl with
   | some r => r
   | none => "bad-op"
 
